@@ -247,7 +247,11 @@ def alphabet(tier="quick", family="all"):
             ("solver", "glpk_exact"), ("solver", "glpk"), ("solver", "nope"),
             ("tolerance", 1e-8), ("optimize",), ("slim_optimize",)]
     # 8 handle replacement
-    ops += [("h_copy",), ("h_deepcopy",), ("h_pickle",)]
+    ops += [("h_copy",), ("h_deepcopy",), ("h_pickle",),
+            # continue on the model that comes back from a file format (built by the readers' own code paths; user-level
+            # solver items are not part of the formats).  Whether it equals the original is C10/C11's question, the
+            # invariants and the reference semantics of every later operation are asked here.
+            ("h_json",), ("h_sbml",)]
     # 9 contexts
     ops += [("enter",), ("exit",), ("exit_exc",)]
     if tier != "quick":
@@ -287,7 +291,7 @@ def sandwich_alphabet(tier="quick"):
 
 
 NOT_REVERSIBLE = {"add_groups", "remove_groups", "set_id", "set_gene_id", "repair", "tolerance",
-                  "h_copy", "h_deepcopy", "h_pickle", "gene_ko_direct"}
+                  "h_copy", "h_deepcopy", "h_pickle", "h_json", "h_sbml", "gene_ko_direct"}
 
 
 # ----------------------------------------------------------------------------------------
@@ -527,6 +531,29 @@ def apply_op(S, op):
         S.replace_model(copy.deepcopy(m))
     elif k == "h_pickle":
         S.replace_model(pickle.loads(pickle.dumps(m)))
+    elif k in ("h_json", "h_sbml"):
+        if S.stack:
+            raise Disabled("open context")
+        try:
+            if k == "h_json":
+                from cobra.io import from_json, to_json
+
+                new = from_json(to_json(m))
+            else:
+                import io
+
+                from cobra.io import read_sbml_model, write_sbml_model
+
+                buf = io.StringIO()
+                write_sbml_model(m, buf)
+                new = read_sbml_model(buf.getvalue())
+            here = m.problem.__name__.split(".")[-1].replace("_interface", "")
+            if new.problem.__name__ != m.problem.__name__:
+                new.solver = here
+        except Exception as exc:   # the route itself fails for this state: judged by C10 / C11
+            raise Disabled(f"{k}: {type(exc).__name__}")
+        S.replace_model(new)
+        S.user_cols, S.user_rows = set(), set()
     elif k == "enter":
         if len(S.stack) >= 3:
             raise Disabled("nesting")
